@@ -453,15 +453,39 @@ func runC15(c *core.Ctx) {
 				} else {
 					// some argument mentions the same field
 					mentions := false
-					for _, arg := range ce.Args {
-						ast.Inspect(arg, func(n ast.Node) bool {
+					mentionsField := func(e ast.Expr) bool {
+						m := false
+						ast.Inspect(e, func(n ast.Node) bool {
 							if sel, ok := n.(*ast.SelectorExpr); ok {
 								if fv, ok := pk.TypesInfo.Uses[sel.Sel].(*types.Var); ok && fv == fa.Field {
-									mentions = true
+									m = true
 								}
 							}
 							return true
 						})
+						return m
+					}
+					for _, arg := range ce.Args {
+						if mentionsField(arg) {
+							mentions = true
+						}
+						// `for i, x := range r.F { r.F[i] = helper(x) }`: the range value of a loop over the field
+						if id, ok := arg.(*ast.Ident); ok {
+							if obj, ok := pk.TypesInfo.Uses[id].(*types.Var); ok {
+								for _, st := range stmts {
+									ast.Inspect(st, func(n ast.Node) bool {
+										rs, ok := n.(*ast.RangeStmt)
+										if !ok || rs.Value == nil {
+											return true
+										}
+										if vid, ok := rs.Value.(*ast.Ident); ok && pk.TypesInfo.Defs[vid] == obj && mentionsField(rs.X) {
+											mentions = true
+										}
+										return true
+									})
+								}
+							}
+						}
 					}
 					if !mentions {
 						info.why = "the codec helper is not applied to the same field"
@@ -1120,6 +1144,35 @@ func runC15pd(c *core.Ctx) {
 						for _, rd := range pv.Desc(res) {
 							if alt == "idx("+rd+")" {
 								decoded = true
+							}
+						}
+					}
+				}
+				if !decoded {
+					// … or the list is handed to a private helper of the same package that decodes every element
+					for _, hc := range core.FindCalls(fn, func(cc *ssa.CallCommon) bool {
+						g := cc.StaticCallee()
+						return g != nil && g.Pkg == fn.Pkg && g.Object() != nil && !g.Object().Exported() && len(g.Blocks) > 0
+					}) {
+						g := hc.Common().StaticCallee()
+						for k, arg := range hc.Common().Args {
+							same := false
+							for _, ad := range pv.Desc(arg) {
+								for _, rd := range pv.Desc(res) {
+									if ad == rd {
+										same = true
+									}
+								}
+							}
+							if !same || k == 0 {
+								continue
+							}
+							for _, dc := range core.FindCalls(g, core.CallsMethodNamed("decodeRegionKeyInPlace", "")) {
+								for _, alt := range pv.Desc(dc.Common().Args[1]) {
+									if alt == fmt.Sprintf("idx(param#%d)", k-1) {
+										decoded = true
+									}
+								}
 							}
 						}
 					}
